@@ -29,6 +29,29 @@ def main():
                      expect_violation=True)
     rep.extra["deviation_on_counterexample"] = {"resetKeepsViol": rr["violated"]}
 
+    # Apalache: the same counter machine, symbolic in period, tolerance and time-stamps (spec/apalache/CounterAp.tla)
+    import subprocess, shutil, time as _t
+    apadir = os.path.join(core.VERIF, "build", "apa_%d" % os.getpid())
+    def apalache(inv, length):
+        t0 = _t.time()
+        p_ = subprocess.run(["apalache-mc", "check", "--cinit=ConstInit", "--inv=" + inv, "--length=%d" % length, "--out-dir=" + apadir,
+                             "CounterAp.tla"], cwd=os.path.join(core.VERIF, "spec", "apalache"), stdout=subprocess.PIPE,
+                            stderr=subprocess.STDOUT, universal_newlines=True, timeout=1800)
+        return p_.stdout, _t.time() - t0
+    L = 6 if quick else 10
+    out, w1 = apalache("Inv", L)
+    if "The outcome is: NoError" not in out:
+        if "The outcome is: Error" in out:
+            rep.mc_violation("apalache CounterAp Inv", {"out": "Error: " + out[-1500:], "violated": ["Inv"]})
+        else:
+            raise core.Machinery("apalache failed\n" + out[-1500:])
+    out2, w2 = apalache("InvOpenBand", 3)
+    if "The outcome is: Error" not in out2:
+        raise core.Machinery("apalache: the deviation invariant InvOpenBand was not refuted (vacuous?)\n" + out2[-800:])
+    shutil.rmtree(apadir, ignore_errors=True)
+    rep.extra["apalache"] = {"spec": "spec/apalache/CounterAp.tla", "inv": "Inv", "length": L, "outcome": "NoError", "wall_s": round(w1, 1),
+                             "symbolic": "P in 1..2000, Tol in 0..P, non-decreasing stamps in 0..100000, Reset anywhere",
+                             "deviation_InvOpenBand": "refuted"}
     rng = random.Random(core.seed() * 7919 + 13)
     n = 900 if quick else 20000
     cases = []
